@@ -51,3 +51,52 @@ func VerifC09_ConcurrentStreams() {
 	verifapi.Assert(ea == nil && len(ga) == 3 && ga[0] == 'a' && ga[1] == 'b' && ga[2] == 'c', "a stream decoded next to another one yields exactly its own chunk")
 	verifapi.Assert(eb == nil && len(gb) == 1 && gb[0] == 'z', "a stream decoded next to another one yields exactly its own chunk (padding skipped)")
 }
+
+// ---- writer failures -------------------------------------------------------------------------
+//
+// WriteData / WritePadding on a writer that fails at its k-th Write (after taking some bytes):
+// the error is reported, the count is exactly what the writer took, and nothing is written
+// after the failure (a stream must not continue with the payload when its length prefix was
+// not sent).
+
+type verifFailingWriter struct {
+	failAt, writes, taken int
+	partial               int
+	afterFailure          int
+}
+
+func (w *verifFailingWriter) Write(p []byte) (int, error) {
+	w.writes++
+	if w.failAt != 0 && w.writes > w.failAt {
+		w.afterFailure++
+	}
+	if w.writes == w.failAt {
+		k := w.partial
+		if k > len(p) {
+			k = len(p)
+		}
+		w.taken += k
+		return k, io.ErrClosedPipe
+	}
+	w.taken += len(p)
+	return len(p), nil
+}
+
+func VerifC09_WriterFailure() {
+	w := &verifFailingWriter{failAt: 1 + verifapi.Concrete(verifapi.Choice("failing write", 3)), partial: verifapi.Concrete(verifapi.Choice("bytes taken", 2))}
+	var n int
+	var err error
+	if verifapi.Bool("padding") {
+		n, err = WritePadding(w, 1500) // two padding chunks
+	} else {
+		n, err = WriteData(w, []byte("data"))
+	}
+	if w.writes >= w.failAt {
+		verifapi.Cover("a write failed")
+		verifapi.Assert(err != nil, "a failure of the underlying writer is reported")
+		verifapi.Assert(w.afterFailure == 0, "nothing is written after a failed write (no payload without its length prefix)")
+	} else {
+		verifapi.Assert(err == nil, "no error without a writer failure")
+	}
+	verifapi.Assert(n == w.taken, "the count returned is the number of bytes the writer took")
+}
